@@ -5,6 +5,7 @@ import (
 	"go/constant"
 	"go/token"
 	"go/types"
+	"sort"
 	"strings"
 
 	"golang.org/x/tools/go/ssa"
@@ -21,8 +22,8 @@ func init() {
 		Explanation: "Decides on the pool controller: (single) Allocatable=True is written only for pools ranged from one map; a pool is stored into that map only where, for the trie of its family and the CIDR parsed " +
 			"from its own Spec.CIDR, Intersects and Covers both returned false, it is not Spec.Disabled and has no DeletionTimestamp, and the same step inserts it into that trie; (keep) the pools are sorted " +
 			"with poolSortFunc before the overlap loop, poolSortFunc decides by category first (aCat-bCat), category(already allocatable, not deleting) < category(terminating) < every other category, and ties " +
-			"end in a name comparison (total order); (mask) a terminating, not disabled pool is inserted into the trie; (finalizer) every removal of the finalizer is guarded by blocksInPool()==false for the " +
-			"pool's own CIDR or by the pool being Allocatable=False and not deleting; blocksInPool returns true where a block's address is contained; (indep) no branch on the error of a call that performs a clientset " +
+			"end in a name comparison (total order); (mask) a terminating, not disabled pool is inserted into the trie; (finalizer) every persisted removal of the pool finalizer below reconcile (recognised by what it does: Finalizers with the finalizer constant filtered out, stored into an object handed to a clientset write, directly or through helpers) is guarded by blocksInPool()==false for the " +
+			"pool's own CIDR or by the pool being Allocatable=False and not deleting — facts established in the hosting function or lifted to every call site leading to it; a live pool gets the finalizer appended; blocksInPool returns true where a block's address is contained; (indep) no branch on the error of a call that performs a clientset " +
 			"write decides, within one iteration of the overlap loop, whether trie.Update is reached while the pass continues to further writes; (synced) every informer-typed field of IPPoolController read in the closure of " +
 			"reconcile has its HasSynced among the arguments of a cache.WaitFor(Named)CacheSync call whose true result guards every statement of Run that starts something reaching reconcile.",
 		NotDecided: "Correctness of felix/ip.CIDRTrie (Covers/Intersects semantics), informer cache staleness after the initial sync, that kube-controllers actually starts both informers, API write failures between the condition pass and the finalizer pass, and IPAM's own use of the condition.",
@@ -124,11 +125,10 @@ func runC39(c *Ctx) {
 	c.Rule("C39.single", "E-FLOW/E-GUARD/E-PAIR", "Allocatable=True only for pools of the active map; entry into it requires !Intersects && !Covers on the pool's own CIDR, not disabled, not terminating, and insertion into the same trie", 7)
 	c.Rule("C39.keep", "E-ORDER/E-TABLE", "pools are sorted by poolSortFunc before overlap resolution; category decides first; allocatable < terminating < rest; ties end in a name comparison", 4)
 	c.Rule("C39.mask", "E-GUARD", "a terminating, not disabled pool is still inserted into the overlap trie", 1)
-	c.Rule("C39.finalizer", "E-GUARD/E-FLOW", "finalizer removal only under !blocksInPool(own CIDR) or for a not-deleting Allocatable=False pool; blocksInPool reports contained blocks", 4)
+	c.Rule("C39.finalizer", "E-GUARD/E-FLOW", "every persisted removal of the pool finalizer (found by what it does, anywhere below reconcile) happens only under !blocksInPool(own CIDR) or for a not-deleting Allocatable=False pool, the facts holding in the function or at every call site leading to it; blocksInPool reports contained blocks", 4)
 	c.Rule("C39.indep", "E-CTRL", "whether a pool is inserted into the overlap trie does not depend on the outcome of an API write: no branch on the error of a status/finalizer write skips trie.Update while the pass goes on to write further conditions", 2)
 	c.Rule("C39.synced", "E-DOM/E-FIELDS", "every informer field the reconcile closure reads has its HasSynced in a cache.WaitFor(Named)CacheSync call whose success guards every start of the worker in Run", 2)
 
-	rc := c23Func(c, p, c39Pkg, "IPPoolController.reconcileConditions")
 	delTS := func(pool ssa.Value) func(ssa.Value) bool {
 		return func(v ssa.Value) bool {
 			fv := fieldVar(v)
@@ -138,7 +138,29 @@ func runC39(c *Ctx) {
 			return pool == nil || c39RootIs(v, pool)
 		}
 	}
+	// Each family resolves its own anchors; a lost anchor breaks the check but
+	// only silences the family that needs it.
+	var lost []string
+	var rc *ssa.Function
+	c23Guarded(&lost, func() { rc = c23Func(c, p, c39Pkg, "IPPoolController.reconcileConditions") })
+	if rc != nil {
+		c23Guarded(&lost, func() { c39Single(c, p, rc, delTS) })
+		c23Guarded(&lost, func() { c39Mask(c, p, rc, delTS) })
+		c23Guarded(&lost, func() { c39Indep(c, p, rc, delTS) })
+	}
+	c23Guarded(&lost, func() { c39Keep(c, p, delTS) })
+	c23Guarded(&lost, func() { c39Finalizer(c, p, delTS) })
+	c23Guarded(&lost, func() { c39Synced(c, p) })
+	if len(lost) > 0 {
+		c.Lost("%s", strings.Join(lost, " | "))
+	}
+}
 
+type c39DelTS = func(ssa.Value) func(ssa.Value) bool
+
+// c39Single: the Allocatable=True set, and that the slice it is drawn from was
+// sorted with poolSortFunc first.
+func c39Single(c *Ctx, p *Prog, rc *ssa.Function, delTS c39DelTS) {
 	// ---- single: the Allocatable=True set
 	var active ssa.Value
 	nTrue := 0
@@ -270,7 +292,6 @@ func runC39(c *Ctx) {
 
 	// ---- keep
 	sortFn := c23Func(c, p, c39Pkg, "poolSortFunc")
-	catFn := c23Func(c, p, c39Pkg, "poolSortCategory")
 	sorted := false
 	if sortTarget != nil {
 		for _, cs := range callsIn(rc, false, func(f *types.Func) bool {
@@ -284,6 +305,12 @@ func runC39(c *Ctx) {
 	}
 	c.Check(sorted, "C39.keep/sorted", p.Pos(rc.Pos()), "slices.SortFunc(pools, poolSortFunc) dominates the overlap loop over the same slice",
 		"the slice of pools fed to overlap resolution is not sorted with poolSortFunc first: a newer pool can take the CIDR of an already allocatable one")
+}
+
+// c39Keep: comparator shape and category table.
+func c39Keep(c *Ctx, p *Prog, delTS c39DelTS) {
+	sortFn := c23Func(c, p, c39Pkg, "poolSortFunc")
+	catFn := c23Func(c, p, c39Pkg, "poolSortCategory")
 	// comparator: category first
 	isCat := func(idx int) func(ssa.Value) bool {
 		return func(v ssa.Value) bool {
@@ -366,6 +393,9 @@ func runC39(c *Ctx) {
 			fmt.Sprintf("poolSortCategory does not order allocatable=%v < terminating=%v < others=%v: an existing allocatable pool can be displaced, or a terminating pool stops masking", aVals, tVals, oVals))
 	}
 
+}
+
+func c39Mask(c *Ctx, p *Prog, rc *ssa.Function, delTS c39DelTS) {
 	// ---- mask
 	masked := false
 	for _, u := range callsIn(rc, false, func(f *types.Func) bool { return c39IsTrie(f, "Update") }) {
@@ -381,22 +411,296 @@ func runC39(c *Ctx) {
 	c.Check(masked, "C39.mask/terminating-in-trie", p.Pos(rc.Pos()), "a pool with DeletionTimestamp != nil is inserted into the overlap trie",
 		"no trie.Update for pools with DeletionTimestamp != nil: a terminating pool stops masking overlapping pools while its blocks still exist")
 
-	// ---- finalizer
-	rf := c23Func(c, p, c39Pkg, "IPPoolController.reconcileFinalizer")
-	pool := rf.Params[3]
-	nRem := 0
-	for _, cs := range callsIn(rf, false, func(f *types.Func) bool { return isFunc(f, c39Pkg, "IPPoolController.updateFinalizers") }) {
-		a := cs.Args()
-		call, _ := a[3].(*ssa.Call)
-		if call == nil || !isFunc(calleeOf(call.Common()), c39Pkg, "withoutFinalizer") {
-			continue
+}
+
+// ------------------------------------------------------------- finalizer --
+//
+// The sites are found by what they do, not by the name of the function that
+// hosts them: a value that is the pool's ObjectMeta.Finalizers with the pool
+// finalizer constant filtered out (removal) or appended (addition) — computed
+// in place or by a helper whose every return is such a value — reaches a store
+// into the Finalizers of an object that the same function hands to a clientset
+// write, directly or through a helper that persists its parameter.  All of this
+// is looked for in every function of the package reachable from reconcile.
+//
+// The guards of a site are facts about the pool (its parameter in the hosting
+// function).  A fact holds if an If edge establishes it on every path to the
+// site, or — guard lifting — if the site's function is only ever called where it
+// holds for the argument bound to that parameter: a callee reached only under
+// `p.DeletionTimestamp == nil` of a dispatcher inherits that fact.
+
+type c39Fin struct {
+	c     *Ctx
+	p     *Prog
+	fin   string // value of the finalizer constant
+	entry *ssa.Function
+	delTS c39DelTS
+	sp    *ssa.Package
+	all   []*ssa.Function // every function of the package
+}
+
+type c39FinSite struct {
+	instr ssa.Instruction
+	kind  string    // "remove" | "add"
+	src   ssa.Value // the Finalizers field access the new value was computed from
+}
+
+func (m *c39Fin) inPkg(f *ssa.Function) bool {
+	return f != nil && f.Blocks != nil && topFn(f).Pkg != nil && topFn(f).Pkg == m.sp
+}
+
+func c39IsFinalizersField(v ssa.Value) bool {
+	fv := fieldVar(v)
+	return fv != nil && fv.Name() == "Finalizers" && fv.Pkg() != nil && fv.Pkg().Path() == "k8s.io/apimachinery/pkg/apis/meta/v1"
+}
+
+func c39SlicesCall(v ssa.Value, name string) *ssa.Call {
+	call, ok := v.(*ssa.Call)
+	if !ok {
+		return nil
+	}
+	f := calleeOf(call.Common())
+	if f == nil || f.Pkg() == nil || f.Pkg().Path() != "slices" || f.Name() != name {
+		return nil
+	}
+	return call
+}
+
+// finBase: v is (a clone / re-slice / copy of) some object's Finalizers; returns
+// that field access.
+func (m *c39Fin) finBase(v ssa.Value) ssa.Value {
+	var out ssa.Value
+	n := 0
+	var walk func(v ssa.Value, depth int)
+	walk = func(v ssa.Value, depth int) {
+		c23Back(v, func(x ssa.Value) bool { _, ok := x.(*ssa.Call); return ok }, func(leaf ssa.Value) {
+			n++
+			if cl := c39SlicesCall(leaf, "Clone"); cl != nil && depth < 3 {
+				n--
+				walk(cl.Call.Args[0], depth+1)
+				return
+			}
+			if c39IsFinalizersField(leaf) {
+				out = leaf
+			}
+		})
+	}
+	walk(v, 0)
+	if n != 1 {
+		return nil // several sources: not simply "the pool's finalizers"
+	}
+	return out
+}
+
+// isFinPredicate: fn is `func(s string) bool { return s == <finalizer> }`.
+func (m *c39Fin) isFinPredicate(v ssa.Value) bool {
+	var fn *ssa.Function
+	switch x := v.(type) {
+	case *ssa.MakeClosure:
+		fn, _ = x.Fn.(*ssa.Function)
+	case *ssa.Function:
+		fn = x
+	}
+	if fn == nil || fn.Blocks == nil || len(fn.Params) != 1 {
+		return false
+	}
+	rets := returnsOf(fn)
+	if len(rets) == 0 {
+		return false
+	}
+	for _, r := range rets {
+		if len(r.Results) != 1 {
+			return false
 		}
-		nRem++
-		noBlocks := guardedCut(cs.Instr, callCond(false, func(g CallSite) bool {
+		bo, ok := r.Results[0].(*ssa.BinOp)
+		if !ok || bo.Op != token.EQL {
+			return false
+		}
+		x, y := bo.X, bo.Y
+		if c39ConstStr(x) == m.fin {
+			x, y = y, x
+		}
+		if x != ssa.Value(fn.Params[0]) || c39ConstStr(y) != m.fin {
+			return false
+		}
+	}
+	return true
+}
+
+// classify: v is a new finalizer list derived from some object's Finalizers by
+// removing ("remove") or appending ("add") the pool finalizer.  src is that
+// object's Finalizers access, expressed in the function v lives in.
+func (m *c39Fin) classify(v ssa.Value, depth int) (kind string, src ssa.Value) {
+	call, ok := v.(*ssa.Call)
+	if !ok {
+		return "", nil
+	}
+	if df := c39SlicesCall(v, "DeleteFunc"); df != nil && len(df.Call.Args) == 2 {
+		if m.isFinPredicate(df.Call.Args[1]) {
+			if b := m.finBase(df.Call.Args[0]); b != nil {
+				return "remove", b
+			}
+		}
+		return "", nil
+	}
+	if b, ok := call.Call.Value.(*ssa.Builtin); ok && b.Name() == "append" {
+		hasFin := false
+		var bases []ssa.Value
+		for _, e := range c23Appended(v, func(o ssa.Value) { bases = append(bases, o) }) {
+			if c39ConstStr(e.Elem) == m.fin {
+				hasFin = true
+			}
+		}
+		if hasFin && len(bases) == 1 {
+			if b := m.finBase(bases[0]); b != nil {
+				return "add", b
+			}
+		}
+		return "", nil
+	}
+	// helper whose every return is such a value computed from one of its parameters
+	g := calleeFn(call.Common())
+	if !m.inPkg(g) || depth >= 3 || g.Signature.Results().Len() != 1 {
+		return "", nil
+	}
+	idx := -1
+	for _, r := range returnsOf(g) {
+		k, s := m.classify(r.Results[0], depth+1)
+		if k == "" || (kind != "" && k != kind) {
+			return "", nil
+		}
+		kind = k
+		j := -1
+		for i, q := range g.Params {
+			if c39RootIs(s, q) {
+				j = i
+			}
+		}
+		if j < 0 || (idx >= 0 && j != idx) {
+			return "", nil
+		}
+		idx = j
+	}
+	if kind == "" || idx < 0 || idx >= len(call.Call.Args) {
+		return "", nil
+	}
+	return kind, call.Call.Args[idx]
+}
+
+// persistedStore: st stores into the Finalizers of an object that st's function
+// passes to a clientset write.
+func (m *c39Fin) persistedStore(st *ssa.Store) bool {
+	if !c39IsFinalizersField(st.Addr) {
+		return false
+	}
+	ok := false
+	allInstrs(st.Parent(), false, func(_ *ssa.Function, in ssa.Instruction) {
+		ci, isCall := in.(ssa.CallInstruction)
+		if !isCall || !c39IsAPIWrite(calleeOf(ci.Common())) {
+			return
+		}
+		for _, a := range ci.Common().Args {
+			if _, isPtr := a.Type().Underlying().(*types.Pointer); isPtr && c39RootIs(st.Addr, a) {
+				ok = true
+			}
+		}
+	})
+	return ok
+}
+
+// persistsParam: g writes its i-th parameter into the Finalizers of an object
+// it persists (itself or through another such helper).
+func (m *c39Fin) persistsParam(g *ssa.Function, i, depth int) bool {
+	if !m.inPkg(g) || i >= len(g.Params) || depth > 2 {
+		return false
+	}
+	prm := g.Params[i]
+	fromParam := func(v ssa.Value) bool {
+		hit := false
+		c23Back(v, nil, func(leaf ssa.Value) {
+			if leaf == ssa.Value(prm) {
+				hit = true
+			}
+		})
+		return hit
+	}
+	found := false
+	allInstrs(g, false, func(_ *ssa.Function, in ssa.Instruction) {
+		switch x := in.(type) {
+		case *ssa.Store:
+			if fromParam(x.Val) && m.persistedStore(x) {
+				found = true
+			}
+		case ssa.CallInstruction:
+			h := calleeFn(x.Common())
+			if h == nil || h == g {
+				return
+			}
+			for j, a := range x.Common().Args {
+				if fromParam(a) && m.persistsParam(h, j, depth+1) {
+					found = true
+				}
+			}
+		}
+	})
+	return found
+}
+
+// sites: persisted finalizer rewrites in f.
+func (m *c39Fin) sites(f *ssa.Function) []c39FinSite {
+	var out []c39FinSite
+	allInstrs(f, false, func(_ *ssa.Function, in ssa.Instruction) {
+		switch x := in.(type) {
+		case *ssa.Store:
+			if k, src := m.classify(x.Val, 0); k != "" && m.persistedStore(x) {
+				out = append(out, c39FinSite{x, k, src})
+			}
+		case ssa.CallInstruction:
+			g := calleeFn(x.Common())
+			if !m.inPkg(g) {
+				return
+			}
+			for i, a := range x.Common().Args {
+				if k, src := m.classify(a, 0); k != "" && m.persistsParam(g, i, 0) {
+					out = append(out, c39FinSite{x, k, src})
+				}
+			}
+		}
+	})
+	return out
+}
+
+// c39Root: the value an access path starts from (p for p.ObjectMeta.Finalizers).
+func c39Root(v ssa.Value) ssa.Value {
+	for i := 0; i < 12; i++ {
+		switch x := v.(type) {
+		case *ssa.UnOp:
+			if x.Op != token.MUL {
+				return v
+			}
+			if _, isAlloc := x.X.(*ssa.Alloc); isAlloc {
+				return v
+			}
+			v = x.X
+		case *ssa.FieldAddr:
+			v = x.X
+		case *ssa.Field:
+			v = x.X
+		default:
+			return v
+		}
+	}
+	return v
+}
+
+// fact builds the edge predicate of a named fact about pool.
+func (m *c39Fin) fact(name string, pool ssa.Value) EdgePred {
+	switch name {
+	case "no-blocks": // blocksInPool(CIDR parsed from pool.Spec.CIDR) returned false
+		return callCond(false, func(g CallSite) bool {
 			if g.Callee == nil || !isFunc(g.Callee, c39Pkg, "IPPoolController.blocksInPool") {
 				return false
 			}
-			// argument parsed from p.Spec.CIDR
 			own := false
 			c23Back(g.Args()[1], func(v ssa.Value) bool { _, ok := v.(*ssa.Call); return ok }, func(v ssa.Value) {
 				if pc, ok := v.(*ssa.Call); ok {
@@ -409,28 +713,145 @@ func runC39(c *Ctx) {
 				}
 			})
 			return own
-		}))
-		inactive := guardedCut(cs.Instr, callCond(true, func(g CallSite) bool {
-			return g.Callee != nil && isFunc(g.Callee, c39Pkg, "hasCondition") && g.Args()[0] == ssa.Value(pool) &&
+		})
+	case "allocatable-false": // hasCondition(pool, Allocatable, False) returned true
+		return callCond(true, func(g CallSite) bool {
+			return g.Callee != nil && isFunc(g.Callee, c39Pkg, "hasCondition") && g.Args()[0] == pool &&
 				c39ConstStr(g.Args()[1]) == "Allocatable" && c39ConstStr(g.Args()[2]) == "False"
-		})) && guardedCut(cs.Instr, c23NilCond(true, delTS(pool)))
-		c.Check(noBlocks || inactive, "C39.finalizer/remove", p.Pos(cs.Instr.Pos()),
-			fmt.Sprintf("finalizer removal guarded (no blocks in own CIDR=%v, not-deleting Allocatable=False pool=%v)", noBlocks, inactive),
-			"the finalizer can be removed from a pool without blocksInPool(pool CIDR)==false and without the pool being a live Allocatable=False pool: an allocatable pool is deleted while it still has blocks")
+		})
+	case "not-deleting":
+		return c23NilCond(true, m.delTS(pool))
 	}
-	if nRem < 2 {
-		c.Lost("expected 2 finalizer removals in reconcileFinalizer, found %d", nRem)
+	panic("c39: unknown fact " + name)
+}
+
+func (m *c39Fin) callSites(f *ssa.Function) []ssa.CallInstruction {
+	var out []ssa.CallInstruction
+	for _, g := range m.all {
+		allInstrs(g, false, func(_ *ssa.Function, in ssa.Instruction) {
+			if ci, ok := in.(ssa.CallInstruction); ok && calleeFn(ci.Common()) == f {
+				out = append(out, ci)
+			}
+		})
 	}
-	// finalizer is added for live, not-inactive pools
-	added := false
-	for _, cs := range callsIn(rf, false, func(f *types.Func) bool { return isFunc(f, c39Pkg, "IPPoolController.updateFinalizers") }) {
-		if call, _ := cs.Args()[3].(*ssa.Call); call != nil {
-			if b, ok := call.Call.Value.(*ssa.Builtin); ok && b.Name() == "append" && guardedCut(cs.Instr, c23NilCond(true, delTS(pool))) {
-				added = true
+	return out
+}
+
+// c39FinCtx is one context in which a finalizer rewrite executes: the site
+// itself when its guards are decided in its own function, otherwise one entry
+// per call site (transitively) to which the undecided facts were lifted.
+type c39FinCtx struct {
+	ok    bool
+	at    ssa.Instruction // where the decision was made (site or call site)
+	trail []string        // facts found, and where
+}
+
+// contexts: one of the conjunctions of dnf must be established for pool at
+// instr — each of its facts by an If edge cut in instr's function or, lifted,
+// at every in-package call site of that function for the argument bound to
+// pool.  A site whose guards live in its callers yields one context per caller.
+func (m *c39Fin) contexts(instr ssa.Instruction, pool ssa.Value, dnf [][]string, depth int, trail []string) []c39FinCtx {
+	f := instr.Parent()
+	var rest [][]string
+	for _, conj := range dnf {
+		var remaining, found []string
+		for _, name := range conj {
+			if guardedCut(instr, m.fact(name, pool)) {
+				found = append(found, name+" in "+fnName(f))
+			} else {
+				remaining = append(remaining, name)
+			}
+		}
+		if len(remaining) == 0 {
+			return []c39FinCtx{{true, instr, append(append([]string{}, trail...), found...)}}
+		}
+		trail = append(append([]string{}, trail...), found...)
+		rest = append(rest, remaining)
+	}
+	fail := []c39FinCtx{{false, instr, trail}}
+	prm, isParam := pool.(*ssa.Parameter)
+	if !isParam || prm.Parent() != f || depth >= 4 || f == m.entry {
+		return fail
+	}
+	idx := -1
+	for i, q := range f.Params {
+		if q == prm {
+			idx = i
+		}
+	}
+	sites := m.callSites(f)
+	if idx < 0 || len(sites) == 0 {
+		return fail
+	}
+	var out []c39FinCtx
+	for _, cs := range sites {
+		args := cs.Common().Args
+		if idx >= len(args) {
+			return fail
+		}
+		out = append(out, m.contexts(cs, c39Root(args[idx]), rest, depth+1, trail)...)
+	}
+	return out
+}
+
+func c39Finalizer(c *Ctx, p *Prog, delTS c39DelTS) {
+	rec := c23Func(c, p, c39Pkg, "IPPoolController.reconcile")
+	finObj, _ := p.LookupObj(c39Pkg, "IPPoolFinalizer").(*types.Const)
+	if finObj == nil || finObj.Val().Kind() != constant.String {
+		c.Lost("constant %s.IPPoolFinalizer", c39Pkg)
+	}
+	m := &c39Fin{c: c, p: p, fin: constant.StringVal(finObj.Val()), entry: rec, delTS: delTS, sp: p.SSAPkg(c39Pkg)}
+	for _, f := range p.AllFuncs() {
+		if m.inPkg(f) {
+			m.all = append(m.all, f)
+		}
+	}
+	var hosts []*ssa.Function
+	for f := range p.closure(rec) {
+		if m.inPkg(f) {
+			hosts = append(hosts, f)
+		}
+	}
+	sort.Slice(hosts, func(i, j int) bool { return hosts[i].Pos() < hosts[j].Pos() })
+	nRem, added := 0, false
+	var addPos token.Pos
+	for _, f := range hosts {
+		for _, st := range m.sites(f) {
+			pool := c39Root(st.src)
+			switch st.kind {
+			case "remove":
+				for _, cx := range m.contexts(st.instr, pool, [][]string{{"no-blocks"}, {"allocatable-false", "not-deleting"}}, 0, nil) {
+					nRem++
+					via := ""
+					if cx.at != st.instr {
+						via = " reached from " + fnName(cx.at.Parent())
+					}
+					c.Check(cx.ok, "C39.finalizer/remove", p.Pos(cx.at.Pos()),
+						fmt.Sprintf("finalizer removal persisted in %s%s is guarded by no blocks in the pool's own CIDR, or by a not-deleting Allocatable=False pool (%s)", fnName(f), via, strings.Join(cx.trail, ", ")),
+						"the finalizer can be removed from a pool (in "+fnName(f)+via+") without blocksInPool(pool CIDR)==false and without the pool being a live Allocatable=False pool — neither in that function nor at the call sites leading to it: an allocatable pool is deleted while it still has blocks")
+				}
+			case "add":
+				all := true
+				cxs := m.contexts(st.instr, pool, [][]string{{"not-deleting"}}, 0, nil)
+				for _, cx := range cxs {
+					all = all && cx.ok
+				}
+				if all && len(cxs) > 0 {
+					added = true
+					addPos = st.instr.Pos()
+				}
 			}
 		}
 	}
-	c.Check(added, "C39.finalizer/add", p.Pos(rf.Pos()), "a live pool gets the finalizer appended", "reconcileFinalizer never appends the finalizer to a live pool: deletion would not wait for its blocks")
+	if nRem < 2 {
+		c.Lost("expected >= 2 (contexts of) persisted removals of the pool finalizer in the functions reachable from reconcile, found %d", nRem)
+	}
+	// finalizer is added for live pools
+	site := p.Pos(rec.Pos())
+	if added {
+		site = p.Pos(addPos)
+	}
+	c.Check(added, "C39.finalizer/add", site, "a live pool gets the finalizer appended", "nothing below reconcile appends the finalizer to a live (DeletionTimestamp == nil) pool and persists it: deletion would not wait for its blocks")
 	// blocksInPool
 	bip := c23Func(c, p, c39Pkg, "IPPoolController.blocksInPool")
 	okTrue := false
@@ -444,8 +865,6 @@ func runC39(c *Ctx) {
 	}
 	c.Check(okTrue, "C39.finalizer/blocksInPool", p.Pos(bip.Pos()), "blocksInPool returns true where cidr.Contains(block address) holds", "blocksInPool has no `return true` under cidr.Contains(block IP): pools with blocks look empty")
 
-	c39Indep(c, p, rc, delTS)
-	c39Synced(c, p)
 }
 
 // c39IsAPIWrite: an invoke of a mutating verb on a generated clientset interface.
